@@ -161,6 +161,15 @@ func main() {
 		res.Bounds["np_complete_n_le"] = 3
 	case "C15":
 		c15family(thorough, add)
+		// the limit next to failure containment, skips and arbitrary dependency shapes (a step that is
+		// refused or canceled must not hold a slot): the general program family under every limit
+		family(famOpts{n: 2, scripts: scriptsFull, maxActive: []int{1, 2}, delays: []int{0}, intervalMs: 1000, coAll: true}, sub)
+		if thorough {
+			family(famOpts{n: 3, scripts: scriptsReduced, maxActive: []int{1, 2, 3}, delays: []int{0}, intervalMs: 1000, coAll: false}, sub)
+			family(famOpts{n: 4, scripts: scriptsReduced[:3], maxActive: []int{1, 2, 3}, delays: []int{0}, intervalMs: 0, coAll: false}, sub)
+		} else {
+			family(famOpts{n: 3, scripts: scriptsReduced, maxActive: []int{1, 2}, delays: []int{0}, intervalMs: 1000, coAll: false, maxRetry: 1}, sub)
+		}
 		famDesc = append(famDesc, "w in 1..3 parallel steps (+ join), maxActiveRuns 0..w+1, per-step scripts {ok, fail1-retry1(interval 1s), fail}")
 	case "C04":
 		c04family(thorough, add)
